@@ -187,8 +187,9 @@ def run(ctx):
     for n in ast.walk(recv):
         if isinstance(n, ast.Raise):
             facts = G.path_conditions(recv, n)
-            if any(empty_fact(t, pol) for t, pol in facts) and any(nonblocking_fact(t, pol) for t, pol in facts):
-                raises.append(n)
+            if any(empty_fact(t, pol) for t, pol in facts) and any(nonblocking_fact(t, pol) for t, pol in facts) \
+                    and all(empty_fact(t, pol) or nonblocking_fact(t, pol) or (isinstance(t, ast.Constant) and bool(t.value) == pol) for t, pol in facts):
+                raises.append(n)  # and under no further condition
     ctx.check("C18.E", "recv:non-blocking-empty-raises", len(raises) == 1, f"found {len(raises)} raise statements under (queue empty and not {blockp}); a non-blocking receive on an empty channel must report emptiness", repo.loc(m, recv))
     if raises:
         r = raises[0]
@@ -286,7 +287,7 @@ def run(ctx):
                 cond = G.raising_condition(st)
                 if cond is not None and any(isinstance(x, ast.Attribute) and isinstance(x.value, ast.Name) and x.value.id == "self" for x in ast.walk(cond)):
                     blockers.append(src(cond))
-            for t, pol in G.enclosing_tests(fn, c):
+            for t, pol in G.path_conditions(fn, c):
                 if any(isinstance(x, ast.Attribute) and isinstance(x.value, ast.Name) and x.value.id == "self" for x in ast.walk(t)):
                     blockers.append(("" if pol else "not ") + src(t))
         ctx.check("C18.W", f"ThreadSocket.{meth}:reaches-the-hub-whatever-the-connection-state", not blockers,
